@@ -1277,3 +1277,61 @@ func init() {
 			}
 		}})
 }
+
+func init() {
+	register(&Rule{ID: "O2.anchor", Min: 2, Text: "one anchor per slot: in crdt.ElementRHT and ElementRHTNode (the object's key slots), every last-writer-wins comparison against the element that occupies a slot (ticket.After(…) on a value taken from the occupying node's element) uses the element's positioned-at ticket (PositionedAt(elem) — the ticket of the write that last placed it there, which undo/redo makes newer than its creation ticket), not its CreatedAt. A removal gated on CreatedAt wins over a restore that was placed later than the removal on one replica and loses on the other: both clients delete a key, one undoes before syncing — {} on one side, {\"k\":1} on the other",
+		Run: func(x *Ctx) {
+			n := 0
+			for _, fn := range x.P.FuncsIn(crdtPkg) {
+				r := fn.Signature.Recv()
+				if r == nil || namedOf(r.Type()) == nil {
+					continue
+				}
+				rn := namedOf(r.Type()).Obj().Name()
+				if rn != "ElementRHT" && rn != "ElementRHTNode" {
+					continue
+				}
+				i := 0
+				for _, c := range prog.CallsIn(fn) {
+					o := prog.CallObj(c)
+					if o == nil || o.Name() != "After" || len(c.Common().Args) < 2 {
+						continue
+					}
+					arg := c.Common().Args[1]
+					// what is the ticket compared against?
+					ac, isC := prog.Strip(arg).(*ssa.Call)
+					if !isC {
+						continue
+					}
+					name := ""
+					if ac.Call.IsInvoke() {
+						name = ac.Call.Method.Name()
+					} else if ao := prog.CallObj(ac); ao != nil {
+						name = ao.Name()
+					}
+					switch name {
+					case "CreatedAt", "PositionedAt", "MovedAt":
+					default:
+						continue
+					}
+					// of the occupying element: reached through a node's elem field
+					var recv ssa.Value
+					if ac.Call.IsInvoke() {
+						recv = ac.Call.Value
+					} else if len(ac.Call.Args) > 0 {
+						recv = ac.Call.Args[0]
+					}
+					if recv == nil || prog.LoadedField(recv) == nil || prog.LoadedField(recv).Name() != "elem" {
+						continue
+					}
+					i++
+					n++
+					x.check(name == "PositionedAt", fmt.Sprintf("func=%s lww-comparison#%d against-the-occupant's-positioned-at", prog.FnName(fn), i), x.pos(c),
+						"the comparison uses the ticket of the write that last placed the occupant", "the comparison against the occupying element uses its "+name+"() instead of PositionedAt(elem): once undo/redo has re-placed an element under its old identity, a concurrent removal that is older than the restore still wins here, and the replicas disagree on whether the key exists")
+				}
+			}
+			if n < 2 {
+				x.C.Vacuous(x.id()+" LWW comparisons against a slot's occupant", n, 2)
+			}
+		}})
+}
